@@ -44,6 +44,10 @@ struct ThreadOut {
     mismatches: Vec<Value>,
     panics: Vec<Value>,
     noise_ops: usize,
+    /// in-run snapshots of the cache: entries seen compiled / compiled with a regex text that is
+    /// not the one of the rule at that address
+    seen_compiled: usize,
+    seen_bad: usize,
 }
 
 fn run_one(spec: &RunSpec, prefix: usize, noise: bool, progress: &AtomicU64) -> Value {
@@ -75,12 +79,12 @@ fn run_one(spec: &RunSpec, prefix: usize, noise: bool, progress: &AtomicU64) -> 
     std::thread::scope(|sc| {
         for (ti, qs) in w.queries.iter().enumerate() {
             let engine = Arc::clone(&engine);
-            let (ticket, order, barrier, outs, stop_on_panic) = (&ticket, &order, &barrier, &outs, &stop_on_panic);
+            let (ticket, order, barrier, outs, stop_on_panic, addrs) = (&ticket, &order, &barrier, &outs, &stop_on_panic, &addrs);
             let seq = &seq_answers[ti];
             let seed = spec.seed;
             sc.spawn(move || {
                 let mut nr = XRng::new(seed ^ (0xC19 + ti as u64 * 7919));
-                let mut out = ThreadOut { digest: FNV0, bits: Vec::with_capacity(qs.len()), mismatches: vec![], panics: vec![], noise_ops: 0 };
+                let mut out = ThreadOut { digest: FNV0, bits: Vec::with_capacity(qs.len()), mismatches: vec![], panics: vec![], noise_ops: 0, seen_compiled: 0, seen_bad: 0 };
                 barrier.wait();
                 for (qi, q) in qs.iter().enumerate() {
                     if noise {
@@ -91,8 +95,17 @@ fn run_one(spec: &RunSpec, prefix: usize, noise: bool, progress: &AtomicU64) -> 
                                 out.noise_ops += 1;
                             }
                             1 => {
+                                let (mut sc_, mut sb_) = (0, 0);
                                 let r = catch_unwind(AssertUnwindSafe(|| {
                                     let info = engine.get_regex_debug_info();
+                                    for en in &info.regex_data {
+                                        if let Some(t) = &en.regex {
+                                            sc_ += 1;
+                                            if !addrs.iter().any(|(a, _, text)| *a == en.id && text == t) {
+                                                sb_ += 1;
+                                            }
+                                        }
+                                    }
                                     if !info.regex_data.is_empty() {
                                         let id = info.regex_data[nr.below(info.regex_data.len())].id;
                                         engine.verif_blocker().discard_regex(id);
@@ -101,6 +114,8 @@ fn run_one(spec: &RunSpec, prefix: usize, noise: bool, progress: &AtomicU64) -> 
                                 if let Err(e) = r {
                                     out.panics.push(json!({"thread": ti, "index": qi, "where": "noise", "message": panic_message(e)}));
                                 }
+                                out.seen_compiled += sc_;
+                                out.seen_bad += sb_;
                                 out.noise_ops += 1;
                             }
                             2 => std::thread::yield_now(),
@@ -141,11 +156,14 @@ fn run_one(spec: &RunSpec, prefix: usize, noise: bool, progress: &AtomicU64) -> 
     outs.sort_by_key(|(i, _)| *i);
 
     // --- after the run: the lock must still be usable (not poisoned), answers still the same
+    // (policy switch first: its own critical section still cleans up under the old policy, then
+    // nothing is discarded any more, so the dump below shows what the post queries compiled)
     let post = catch_unwind(AssertUnwindSafe(|| {
+        engine.verif_blocker().set_regex_discard_policy(lenient_policy());
         let mut ok = true;
         for (ti, qs) in w.queries.iter().enumerate() {
-            if let Some(q) = qs.first() {
-                ok &= answer(&engine, q).0 == seq_answers[ti][0];
+            for (qi, q) in qs.iter().take(POST_QUERIES).enumerate() {
+                ok &= answer(&engine, q).0 == seq_answers[ti][qi];
             }
         }
         ok
@@ -175,6 +193,8 @@ fn run_one(spec: &RunSpec, prefix: usize, noise: bool, progress: &AtomicU64) -> 
         "cache_usage_total": snap.iter().map(|e| e.3).sum::<usize>(),
         "cache_bad_entries": bad_entries,
         "noise_ops": outs.iter().map(|(_, o)| o.noise_ops).sum::<usize>(),
+        "inrun_compiled_seen": outs.iter().map(|(_, o)| o.seen_compiled).sum::<usize>(),
+        "inrun_bad_seen": outs.iter().map(|(_, o)| o.seen_bad).sum::<usize>(),
         "seq_ms": t_seq.as_millis() as u64, "conc_ms": t_conc.as_millis() as u64,
     });
     if spec.mode == Mode::Pure {
